@@ -206,4 +206,30 @@ PROPS = {
         ],
         "assumptions": ["a caller that keeps an IndexReadGuard alive while writing from the same thread is outside the contract", "rwlock treated as exclusive (more blocking than reality)"],
     },
+    "C04": {
+        "modules": ["CasModel.Props.C04"],
+        "obligations": ["C04_no_dangling", "C04_inflight_blob_safe", "step_concInv", "run_concInv", "stepPc_concInv",
+                        "apWal_concInv", "assemble_unlink", "concInv_init", "step_lockInv", "applyOp_spec"],
+        "full": ["C04_no_dangling", "C04_inflight_blob_safe"],
+        "slices": [("c04", 250, 8000)],
+        "trusted": [
+            "model Conc.lean: one step = one thread from yield point to yield point; index/WAL update abstracted to 'log + apply' under state.write + wal (the Store model covers the WAL); the invariant ConcInv (index invariant, every file's content hashes to its name, every referenced hash has a file, per-hash protection ≥ number of commits in their window, unlink phases only hold unreferenced unprotected hashes, lock invariant) is proved inductive for ALL programs, thread counts and schedules",
+            "the theorem is about the model of the REPAIRED code (fix commits 8ba843f + fd1c121: protection counted per hash, released at apply time); before the repair the property was false (same-key intent clobbering) — kept as seeded regression F2",
+            "tie: forced schedules on the real code through the yield-point hooks, replayed by the model step by step (parked point, lock bits, digests of index, CAS listing and intent/protection tables); oracle on the real side at every step: every indexed hash has a file",
+            "checkpoint/orphan clean-up interleavings included (clean-up re-validation is modelled); the composition of Conc's abstract log with Store's WAL (serialisation by the two inner locks) is a paper argument",
+        ],
+        "assumptions": ["contents put are collision-free under BLAKE3 (sz (H c) = |c|)", "no I/O faults (C14 covers those)", "initial store quiescent and consistent (InitOK), as produced by any sequential history (C01/C07/C12)"],
+    },
+    "C05": {
+        "modules": ["CasModel.Props.C04"],
+        "obligations": ["C05_read_atomic", "C04_no_dangling", "run_concInv", "step_concInv"],
+        "full": ["C05_read_atomic"],
+        "slices": [("c05", 250, 8000)],
+        "trusted": [
+            "proved: in every reachable state of every schedule a read that does its lookup returns absent iff the key is absent, else the COMPLETE content of the blob indexed at that instant, never a missing-blob error (model of the repaired read path: blob opened under the read guard, fix 5ae164b)",
+            "writes: the index changes only in WAL steps, each an atomic apply_logical_op between its call and return (by construction of Conc.step); 'final contents equal some sequential order respecting real time' is checked on the real side by a brute-force linearizability checker over every forced schedule (results + final index), not yet a Lean theorem",
+            "remove/remove_range report presence as of their scan step (documented as not strictly atomic): modelled that way",
+        ],
+        "assumptions": ["as C04; readers hold an fd to an immutable file (C06)"],
+    },
 }
